@@ -54,6 +54,18 @@ for f in sorted(glob.glob(f"{V}/seeded/*/meta.json")):
     det = ", ".join(d.get("detected_by") or []) or "**none**"
     out.append(f"| {name} | {d.get('property')} | {title} ({need}) | {det} | {notes.get(name, '')} |")
 out.append("")
+# 6.6 per-property numbers from the evidence files of the last run
+out += ["### 6.6 Per-property numbers (from evidence/*.json of the last committed run)", "",
+        "| property | tier | obligations discharged | theorems in the property file | cases evaluated (distinct non-trivial) | traces against the implementation | wall s |",
+        "|---|---|---|---|---|---|---|"]
+for f in sorted(glob.glob(f"{V}/evidence/C*.json")):
+    try:
+        e = json.load(open(f)); c = e["coverage"]
+        out.append(f"| {e['property_id']} | {e['tier']} | {c['discharged']}/{c['obligations']} | {len(c.get('theorems', []))} | "
+                   f"{c.get('evaluations', '')} ({c.get('distinct_nontrivial', '')}) | {c.get('traces_validated_against_impl', '')} | {e.get('wall_s', '')} |")
+    except Exception:
+        pass
+out.append("")
 text = "\n".join(out)
 p = f"{V}/DESIGN.md"
 s = open(p).read()
